@@ -345,7 +345,28 @@ def job_accept(item):
                 if st.else_branch:
                     walk(st.else_branch)
     walk(prog.body)
-    if any(v in tested and v not in init_vars for v in prog.assigned_vars(prog.body)):
+    # ... and so is one that copies such a variable (possibly through other variables) into a tested one
+    def rhs_reads(a):
+        r = set()
+        if a.kind == "choice":
+            for v_, p_ in a.payload:
+                r |= v_.symbols_deep() | p_.symbols_deep()
+        elif a.kind == "dist":
+            for q_ in a.payload[1]:
+                r |= q_.symbols_deep()
+        else:
+            r.add(str(a.payload[1]))
+        return r
+    body_assigns = prog.all_assigns(prog.body)
+    tainted = {v for v in prog.assigned_vars(prog.body) if v not in init_vars}
+    changed = True
+    while changed:
+        changed = False
+        for a in body_assigns:
+            if a.var not in tainted and (rhs_reads(a) & tainted):
+                tainted.add(a.var)
+                changed = True
+    if tested & tainted:
         out["outside"] = 1
         return out
     res = polar_iface.closed_forms(text, [], per_goal_timeout=60)
